@@ -271,6 +271,19 @@ def run_export(spec, noise, textdir):
     tracer.print_trace(f, base=opts['base'], compact=opts['compact'])
     texts['print_trace'] = f.getvalue()
     texts['simulation_trace'] = json.dumps(sorted((k, list(v)) for k, v in tracer.trace.items()))
+    # FastSimulation: its generated code names wires through a _PythonSanitizer fed in set order; the
+    # trace it produces must nevertheless be the same under every schedule
+    try:
+        ftr = pyrtl.SimulationTrace(wires_to_track='all' if opts['track_all'] else None, block=block)
+        fs = pyrtl.FastSimulation(register_value_map=dict(stim[0]),
+                                  memory_value_map={m: dict(c) for m, c in stim[1].items()},
+                                  tracer=ftr, block=block)
+        for step in stim[2]:
+            fs.step(dict(step))
+        texts['fastsim_trace'] = json.dumps(sorted((k, list(v)) for k, v in ftr.trace.items()))
+    except Exception as e:
+        texts['fastsim_trace'] = 'ERR %s' % type(e).__name__
+    res['fast_equals_sim'] = (texts['fastsim_trace'] == texts['simulation_trace'])
     # informational only (not in the property's byte-identical list)
     extra = {}
     try:
@@ -285,7 +298,20 @@ def run_export(spec, noise, textdir):
         extra['render_trace'] = f.getvalue()
     except Exception as e:  # pragma: no cover
         extra['render_trace'] = 'ERR ' + type(e).__name__
+    f = io.StringIO()
+    try:
+        pyrtl.output_to_trivialgraph(f, block=block)
+        extra['output_to_trivialgraph'] = f.getvalue()
+    except Exception as e:  # pragma: no cover
+        extra['output_to_trivialgraph'] = 'ERR ' + type(e).__name__
     res['sha'] = {k: store(textdir, spec['key'] + '.' + k, v) for k, v in texts.items()}
+    # last, because it rewrites the block in place
+    f = io.StringIO()
+    try:
+        pyrtl.output_to_firrtl(f, block=block)
+        extra['output_to_firrtl'] = f.getvalue()
+    except Exception as e:
+        extra['output_to_firrtl'] = 'ERR ' + type(e).__name__
     res['extra_sha'] = {k: sha(v) for k, v in extra.items()}
     res['n_invalid'] = sum(1 for nm in names if needs_sanitising(nm))
     res['n_invalid_tracked'] = sum(1 for nm in res['tracked_order'] if needs_sanitising(nm))
